@@ -23,6 +23,7 @@ import (
 	ma "github.com/multiformats/go-multiaddr"
 
 	"verifsim/harness/common"
+	"verifsim/simhook"
 	"verifsim/simhost"
 	"verifsim/simnet"
 	"verifsim/simrt"
@@ -329,7 +330,7 @@ func run(t *testing.T, tape *simrt.Tape) *common.Outcome {
 	payload := []int{64, 2000, 70000}[g.Weighted(3, 3, 1)]
 	// listener side of the TCP transport: 0 = simhost's wrapper Listen, 1 = the real TcpTransport.Listen on a shared-TCP
 	// connection manager (tcpreuse demultiplexing listener + sampledconn; not with a PSK)
-	shared := g.Int(2) == 1 && !usePSK
+	shared := g.Int(2) == 1 && !usePSK && simhook.TCPReuseSeam // without the overlay seam (see check: overlay_patch) the wrapper Listen is used
 	// cold start (1 run in 4): no fault-free warm-up attempt — the planned fault hits the very FIRST contact of the two
 	// nodes (first dial of the transport, first peer scope, identify's first run, lazily started workers). Without a
 	// warm-up there is no goroutine baseline, so only the goroutine-left audit is dropped in these runs; the resource
